@@ -55,6 +55,7 @@ def make_header(seed: int, prop: str, profile: Dict) -> Dict:
         "solver_fault_rate": fs.choice(profile.get("solver_fault_rates", [0.0, 0.0, 0.05, 0.15])),
         "fs_fault_rate": fs.choice(profile.get("fs_fault_rates", [0.0, 0.3])),
     }
+    swarm["e4_sweep"] = bool(profile.get("e4_sweep"))
     if swarm["logging_at"] is not None and fs.random() < 0.3:
         swarm["logging_off_at"] = min(n_steps - 1, swarm["logging_at"] + fs.randrange(1, 6))
     all_ops = list(profile["ops"])
@@ -91,7 +92,10 @@ def online_gen(seed: int) -> Callable:
         if evs:
             step["env"] = evs
         r1, r2, r3, r4 = fs.random(), fs.random(), fs.random(), fs.random()
-        if r1 < sw["solver_fault_rate"]:
+        if sw.get("e4_sweep"):
+            # systematic give-up sweep: every step gets a fault at a uniformly chosen LP call index
+            step["solver_fault"] = {"at": fs.choice([0, 0, 1, 1, 2, 3, 4, 6, 9]), "kind": fs.choice(["iter", "time", "numerical"])}
+        elif r1 < sw["solver_fault_rate"]:
             k = 0
             while r2 < 0.55 and k < 12:  # geometric call index
                 k += 1
@@ -127,6 +131,8 @@ def run_plan(plan: Dict, oracles: List[str], use_zygote: bool = True, keep_plan:
 
 
 def violation_class(v: Dict) -> Tuple:
+    if v["oracle"] in ("E1", "E4"):
+        return (v["property"], v["oracle"], "*", v.get("key"))
     return (v["property"], v["oracle"], v["op"], v.get("key"))
 
 
